@@ -45,7 +45,7 @@ func C13(p *load.Prog, r *report.Report) {
 				if alias {
 					want = absint.TInt(1)
 				}
-				r.Check(ok && got.Equal(want), "C13.lessorequal", name, p.Pos(fn.Pos()), "result = "+want.String(), fmt.Sprintf("result is %s; the integer semantics requires %s (an ordering of internal Montgomery representatives is not the ordering of the values)", absint.Show(res.Ret), want))
+				r.Check(ok && (got.Equal(want) || absint.TrichoNorm(got).Equal(absint.TrichoNorm(want))), "C13.lessorequal", name, p.Pos(fn.Pos()), "result = "+want.String(), fmt.Sprintf("result is %s; the integer semantics requires %s (an ordering of internal Montgomery representatives is not the ordering of the values)", absint.Show(res.Ret), want))
 				if ok {
 					r.Sample(map[string]interface{}{"case": name, "result": got.String()})
 				}
